@@ -71,6 +71,16 @@ func checkC09(c *Ctx) {
 	c9Atomics(c)
 	c9Blocking(c)
 	c9EncoderPurity(c, "R9.6")
+	c.Rule("R9.8", "no object is touched after it went back to its pool (the next owner may be another goroutine), and derived handlers/cores never share a slice tail with their parent", 8)
+	c8UseAfterRelease(c, "R9.8", c8ReleaseFns())
+	for _, m := range []string{"WithAttrs", "WithGroup"} {
+		if fn := c.Method(SlogPath, "Handler", m); fn != nil {
+			c7Appends(c, "R9.8", fn)
+		}
+	}
+	if rh := c.Func(CorePath, "RegisterHooks"); rh != nil {
+		c7Appends(c, "R9.8", rh)
+	}
 }
 
 // ---------------------------------------------------------------------------
@@ -290,6 +300,30 @@ func c9Atomics(c *Ctx) {
 			}
 		})
 	})
+	// the table is inline storage all the way down: a pointer, slice or map cell would have to be allocated and
+	// published at run time, which the lock-free sampler has no synchronisation for
+	var ptrCells []string
+	var walk func(t types.Type, path string, d int)
+	walk = func(t types.Type, path string, d int) {
+		if d > 6 {
+			return
+		}
+		switch u := types.Unalias(t).Underlying().(type) {
+		case *types.Array:
+			walk(u.Elem(), path+"[]", d+1)
+		case *types.Struct:
+			for i := 0; i < u.NumFields(); i++ {
+				if strings.HasPrefix(TypeName(u.Field(i).Type()), "atomic.") {
+					continue
+				}
+				walk(u.Field(i).Type(), path+"."+u.Field(i).Name(), d+1)
+			}
+		case *types.Pointer, *types.Slice, *types.Map, *types.Chan, *types.Interface:
+			ptrCells = append(ptrCells, path+" "+TypeName(t))
+		}
+	}
+	walk(cs, "counters", 0)
+	c.Check(len(ptrCells) == 0, "R9.4", CorePath+".counters", "inline-storage", cs.Obj().Pos(), "the counter table holds its counters inline (no pointer, slice or map cell that goroutines would have to fill in lazily without synchronisation): %v", ptrCells)
 	c.Check(len(copies) == 0, "R9.4", CorePath+".counters", "never-copied", cs.Obj().Pos(), "counters are only handled through pointers (value copies in %v would fork the budget and race)", copies)
 	al := c.Named(ZapPath, "AtomicLevel")
 	if al != nil {
